@@ -378,8 +378,9 @@ func (g *TxGen) genKind(kind int, now int64) *types.Transaction {
 			return g.genKind(kIssueAsset, now)
 		}
 		from := g.user()
-		if g.d(4) != 0 {
-			// usually somebody who was issued or sent some of this asset (a transfer by a non-holder fails at once)
+		if g.C.Draw("holder", 4) != 0 {
+			// usually somebody who was issued or sent some of this asset (a transfer by a non-holder fails at once);
+			// drawn from a stream of its own so that older tapes keep their meaning
 			var holders []*keyInfo
 			for _, u := range g.Net.Users {
 				if as.Holders[u.Addr] {
@@ -387,7 +388,7 @@ func (g *TxGen) genKind(kind int, now int64) *types.Transaction {
 				}
 			}
 			if len(holders) > 0 {
-				from = holders[g.d(len(holders))]
+				from = holders[g.C.Draw("holder", len(holders))]
 			}
 		}
 		var to common.Address
